@@ -275,7 +275,7 @@ fn conv_of(project: &Project) -> Conv {
 }
 
 /// Run the real pipeline; returns the reported sources (TID of the source call) per configuration.
-fn run_real(project: &Project, cfg: &Config, both_policies: bool) -> Result<(Vec<BTreeSet<String>>, Vec<Value>), String> {
+fn run_real(ctx: &Ctx, project: &Project, cfg: &Config, both_policies: bool) -> Result<(Vec<BTreeSet<String>>, Vec<Value>), String> {
     catch(|| {
         let graph = get_program_cfg(&project.program);
         let binary: Vec<u8> = Vec::new();
@@ -297,7 +297,8 @@ fn run_real(project: &Project, cfg: &Config, both_policies: bool) -> Result<(Vec
                 }
             }
             if set.len() != warnings.len() {
-                set.insert("<duplicate source in warnings>".to_string());
+                // several warnings for one source do not contradict the statement
+                ctx.stat("runs_with_several_warnings_for_one_source", 1);
             }
             out.push(set);
         }
@@ -328,7 +329,7 @@ fn check_program(ctx: &Ctx, cfg: &Config, label: &str, raw: &Project, both_polic
         }
         verdicts.push((tid_str(&s.call.tid), v));
     }
-    let (reported_sets, raw_warnings) = match run_real(project, cfg, both_policies) {
+    let (reported_sets, raw_warnings) = match run_real(ctx, project, cfg, both_policies) {
         Ok(r) => r,
         Err(p) => {
             ctx.violation(format!("panic {}", mcx::panic_site(&p)), case(), json!({"in": "cfg / signatures / pointer inference / CWE476", "panic": p, "program": render(project)}));
@@ -410,6 +411,7 @@ fn main() {
     let cfg = &cfg;
     let thorough = ctx.thorough();
     let full: Vec<usize> = (0..N_SLOTS).collect();
+    // layers: (slot alphabet, slots, skip programs whose 4th slot is empty)
     let layers: Vec<(Vec<usize>, u32, bool)> = if thorough { vec![(full, 3, false), (THOROUGH_4SLOT.to_vec(), 4, true)] } else { vec![(QUICK_SLOTS.to_vec(), 3, false)] };
     let mut total = 0u64;
     for (alphabet, nslots, skip_empty_last) in &layers {
